@@ -77,7 +77,12 @@ class SpacingAccessorsMixin(base.RawModel):
         if current_tokens:
             self.token_store.splice(tokens, current_tokens[0], current_tokens[-1])
         else:
-            self.token_store.insert_after(self.last_token, tokens)
+            # Behind the zero-width marks that follow (end of line, dedent, list placeholders), where the parser puts
+            # spacing: in front of them it would lie inside the enclosing model, invisible to that model's neighbours.
+            ref = self.last_token
+            while (succ := self.token_store.get_next(ref)) is not None and not succ.raw_text:
+                ref = succ
+            self.token_store.insert_after(ref, tokens)
 
     @property
     def spacing_after(self) -> str:
